@@ -431,7 +431,52 @@ func (node *CallGraphStage) resolveForks(mapped ForkRootList, localRoot *CallGra
 				node.Forks = append(node.Forks, localRoot)
 			}
 		}
+		node.Forks = dropLockstepRoots(node.Forks)
 	}
+}
+
+// dropLockstepRoots removes the fork roots which are mapped over the whole
+// (merged) output of another root in the list.  Such a call iterates in
+// lockstep with that root: together they are one dimension of forking, not
+// two.
+func dropLockstepRoots(roots ForkRootList) ForkRootList {
+	if len(roots) < 2 {
+		return roots
+	}
+	result := roots[:0:0]
+	for _, b := range roots {
+		drop := false
+		if b.split != nil {
+			if set, ok := b.split.Source.(*MapCallSet); ok {
+				for _, a := range roots {
+					if a != b && set.refersToWhole(a.Fqid) {
+						drop = true
+						break
+					}
+				}
+			}
+		}
+		if !drop {
+			result = append(result, b)
+		}
+	}
+	return result
+}
+
+func (set *MapCallSet) refersToWhole(fqid string) bool {
+	for _, src := range set.Sources {
+		switch src := src.(type) {
+		case *BoundReference:
+			if src.Exp != nil && src.Exp.Id == fqid && src.Exp.OutputId == "" {
+				return true
+			}
+		case *RefExp:
+			if src.Id == fqid && src.OutputId == "" {
+				return true
+			}
+		}
+	}
+	return false
 }
 
 var trueExp = BoolExp{Value: true}
